@@ -57,6 +57,8 @@ def ren_packet(p):
     """`M <msg>`  or  `B <time> <msg> ;| <msg> ...`"""
     if p[0] == 'M':
         return 'M ' + ren_msg(p[1])
+    if p[0] == 'S':                      # NetAddr.sync (the '/sync id' round trip itself is not modelled)
+        return 'S'
     if p[0] == 'E':                      # the real encoder rejected it
         return f'E {p[1]} ' + ren_msg(p[2])
     elems = []
@@ -137,10 +139,12 @@ class Parse:
         if c == 'n':
             return self.get('nodes', r)
         if c == 'm':
+            from sc3.synth.bus import BusException
             b = self.get('buses', r)
-            if b.index is None:
+            try:
+                return b.as_map()        # a freed bus must refuse (BusException): then the call is not made
+            except BusException:
                 raise Skip()
-            return b.as_map()
         if c == 'K':
             return lambda buf, *a: ['/b_query', buf.bufnum]
         raise ValueError(f'bad token {x}')
@@ -187,6 +191,8 @@ def run_op(line, env):
             x = (Group if op == 'group' else ParGroup)(tgt, act)
             env['nodes'].append(x)
             return f'ok n{x.node_id}'
+        if op == 'register':
+            p.value().register(); return 'ok'
         if op in ('nfree', 'run', 'gdump'):
             n = p.value(); flag = p.value()
             if op == 'nfree':
@@ -397,6 +403,19 @@ def interpret(ops, env, binding):
             if st != 'ok' and stack:
                 i = unwind(i)
             continue
+        if line == 'sync':
+            # `yield from s.sync()` of a routine (RT: Server.sync delegates to addr.sync; the real
+            # NetAddr.sync is replaced by a recorder, BundleNetAddr.sync is the code under test)
+            st = 'ok'
+            try:
+                for _ in s.addr.sync():
+                    pass
+            except Exception as e:
+                st = f'exc:{type(e).__name__}'
+            out.append((f'{st} | ' + drain()).rstrip())
+            if st != 'ok' and stack:
+                i = unwind(i)
+            continue
         if line == 'raise':
             st, raised = 'raise', True
         else:
@@ -435,6 +454,9 @@ def fresh_server(opts):
     s._set_client_id(opts.get('client_id', 0))
     lat = opts.get('latency')
     s.latency = None if lat is None else float(Fraction(lat))
+    if opts.get('running'):              # "booted": node.register() is effective (NodeWatcher state)
+        s._status_watcher._has_booted = True
+        s._status_watcher._notified = True
     return s
 
 
@@ -503,6 +525,15 @@ def run(payload):
 
     iface.send_msg = rec_msg
     iface.send_bundle = rec_bundle
+
+    from sc3.base.netaddr import NetAddr
+
+    def rec_sync(self, condition=None, latency=None, elements=None):
+        WIRE.append(('S', latency, elements))
+        return
+        yield
+
+    NetAddr.sync = rec_sync
     res = []
     for case in payload['cases']:
         try:
